@@ -21,9 +21,17 @@ inductive Method | open | openHs | openAuth | openChan | read | write | isalive 
     read loop); `more`: a read returns a chunk that does not complete the loop; `empty`: returns
     b"" / False; `eof`: raises EOFError; `epipe`/`eio`/`reset`/`refused`/`unreach`: raises that
     OSError; `timeout`: raises socket.timeout; `liberr`/`liberr2`: raises the library's own
-    connection-lost error / another library error; `none`: the handle is None. -/
+    connection-lost error / another library error; `none`: the handle is None;
+    `dataIac`/`dataIacVerb`/`moreIac`/`moreIacVerb`: like `data`/`more`, and the chunk ends after an
+    IAC / after IAC + verb (Telnet transports only). -/
 inductive Outcome | data | more | empty | eof | epipe | eio | reset | refused | unreach | timeout
-    | liberr | liberr2 | none
+    | liberr | liberr2 | none | dataIac | dataIacVerb | moreIac | moreIacVerb
+  deriving DecidableEq, Repr, Inhabited
+
+/-- state of a Telnet transport's control buffer (`_control_buf`, telnet/transport.py:30,
+    asynctelnet/transport.py:37; the byte machine is C15's model): empty, IAC, IAC + verb.  The
+    `*Iac` / `*IacVerb` outcomes are chunks that end strictly inside a 3-byte command. -/
+inductive Ctrl | c0 | cIac | cIacVerb
   deriving DecidableEq, Repr, Inhabited
 
 /-- scrapli exception classes (scrapli/exceptions.py); `other` = any other ScrapliException -/
@@ -43,11 +51,14 @@ inductive Act | retData | retEmpty | retEmptyBusy | retNone | retTrue | retFalse
 def Transport.all : List Transport := [.system, .telnet, .asynctelnet, .paramiko, .asyncssh, .sim]
 def Method.all : List Method := [.open, .openHs, .openAuth, .openChan, .read, .write, .isalive, .close]
 def Outcome.all : List Outcome :=
-  [.data, .more, .empty, .eof, .epipe, .eio, .reset, .refused, .unreach, .timeout, .liberr, .liberr2, .none]
+  [.data, .more, .empty, .eof, .epipe, .eio, .reset, .refused, .unreach, .timeout, .liberr, .liberr2, .none,
+   .dataIac, .dataIacVerb, .moreIac, .moreIacVerb]
+def Ctrl.all : List Ctrl := [.c0, .cIac, .cIacVerb]
 
 theorem Transport.mem_all (t : Transport) : t ∈ Transport.all := by cases t <;> simp [Transport.all]
 theorem Method.mem_all (m : Method) : m ∈ Method.all := by cases m <;> simp [Method.all]
 theorem Outcome.mem_all (o : Outcome) : o ∈ Outcome.all := by cases o <;> simp [Outcome.all]
+theorem Ctrl.mem_all (c : Ctrl) : c ∈ Ctrl.all := by cases c <;> simp [Ctrl.all]
 
 def Transport.toNat : Transport → Nat
   | .system => 0 | .telnet => 1 | .asynctelnet => 2 | .paramiko => 3 | .asyncssh => 4 | .sim => 5
@@ -57,11 +68,18 @@ def Method.toNat : Method → Nat
 def Outcome.toNat : Outcome → Nat
   | .data => 0 | .more => 1 | .empty => 2 | .eof => 3 | .epipe => 4 | .eio => 5 | .reset => 6
   | .refused => 7 | .unreach => 8 | .timeout => 9 | .liberr => 10 | .liberr2 => 11 | .none => 12
+  | .dataIac => 13 | .dataIacVerb => 14 | .moreIac => 15 | .moreIacVerb => 16
+def Ctrl.toNat : Ctrl → Nat
+  | .c0 => 0 | .cIac => 1 | .cIacVerb => 2
 
 /-- key of the (sparse) post-loss tables -/
-def key3 (t : Transport) (m : Method) (o : Outcome) : Nat := (t.toNat * 8 + m.toNat) * 13 + o.toNat
+def key3 (t : Transport) (m : Method) (o : Outcome) : Nat := (t.toNat * 8 + m.toNat) * 17 + o.toNat
 def key5 (t : Transport) (lm : Method) (lo : Outcome) (m : Method) (o : Outcome) : Nat :=
-  (key3 t lm lo * 8 + m.toNat) * 13 + o.toNat
+  (key3 t lm lo * 8 + m.toNat) * 17 + o.toNat
+/-- keys of the tables that also depend on the control buffer state -/
+def keyC3 (c : Ctrl) (t : Transport) (m : Method) (o : Outcome) : Nat := c.toNat * 1000000 + key3 t m o
+def keyC5 (c : Ctrl) (t : Transport) (lm : Method) (lo : Outcome) (m : Method) (o : Outcome) : Nat :=
+  c.toNat * 1000000 + key5 t lm lo m o
 
 /-- the act is one the property allows: a return, or one of the four named scrapli classes -/
 def Act.ok : Act → Bool
